@@ -14,7 +14,7 @@ def fam(name, harness, entry, tier='quick', witness=False, w=1, opts=None, **kw)
     defs = ['%s=%s' % (k, v) for k, v in kw.items()] + (['WITNESS=1'] if witness else [])
     o = {'time_limit': 420 if tier == 'quick' else 2400, 'max_viol': 400}
     o.update(opts or {})
-    fams.append(Family(name, harness, entry, defs, opts=o, tier=tier, witness=witness, weight=w, validate=2))
+    fams.append(Family(name + ('-witness' if witness else ''), harness, entry, defs, opts=o, tier=tier, witness=witness, weight=w, validate=2))
 # event queue at capacity while the dispatcher holds the dequeued event and wakes its waiters
 for nw, npend in ((2, 8), (3, 7), (9, 8), (2, 16), (17, 16)):
     fam('evgrow-w%d-p%d' % (nw, npend), 'h_c10.c', 'h_evgrow', NWAIT=nw, NPEND=npend, w=3)
@@ -61,6 +61,14 @@ for prop, names in tear.items():
 fams.append(simfam.fam('teardown-with-reports', ['ACQ OPUT HOLD REL OPUT', 'HOLD ACQ OGET HOLD'], REC=1, CONCRETE_D=1, TEARDOWN=2, POOLCAP=2, BUFCAP=2, QCAP=2, w=2))
 fams.append(simfam.fam('teardown-with-reports-blocked', ['ACQ QPUT HOLD QPUT QPUT', 'HOLD ACQ HOLD', 'OGET'], REC=1, CONCRETE_D=1, TEARDOWN=2, POOLCAP=2, BUFCAP=2, QCAP=2, w=3))
 fams.append(simfam.fam('teardown-with-reports', ['ACQ OPUT HOLD REL OPUT', 'HOLD ACQ OGET HOLD'], REC=1, CONCRETE_D=1, TEARDOWN=2, POOLCAP=2, BUFCAP=2, QCAP=2, witness=True, w=2))
+
+# life cycle and reporting functions of the data containers, summaries, logger, names; reports of unrecorded objects
+fam('api-dataset', 'h_api.c', 'a_dataset', N=3, w=2)
+fam('api-dataset', 'h_api.c', 'a_dataset', N=3, witness=True, w=2)
+fam('api-timeseries', 'h_api.c', 'a_timeseries', N=2, w=4)
+fam('api-timeseries-3', 'h_api.c', 'a_timeseries', tier='thorough', N=3, w=30)
+fam('api-logger-names', 'h_api.c', 'a_logger_names', w=1)
+fam('api-reports-unrecorded', 'h_api.c', 'a_reports_unrecorded', w=1)
 
 c = Check('C10')
 c.run_e1(fams, assumptions=['"valid program": every API call respects the argument conditions its header documents and its own entry asserts state; nothing is assumed about library-internal state',
